@@ -32,14 +32,19 @@ TIMEOUT = 900
 
 
 def cases(tier, seed):
-    forms = ["bare", "attr", "alias", "wrapped", "pkginit", "initroot", "chain", "pinned", "lambda", "factory", "xdeco", "nestedlocal", "prefix", "lrucache", "declared", "nowraps"]
+    forms = ["bare", "attr", "alias", "wrapped", "pkginit", "initroot", "chain", "pinned", "lambda", "factory", "xdeco", "nestedlocal", "prefix", "lrucache", "declared", "nowraps", "xpkg"]
     for form in forms:
         edges = all_edges(3, form)
         graphs = [(kinds, mask) for kinds in itertools.product(["memento", "plain"], repeat=2)
                   for mask in range(1 << len(edges))]
-        if tier == "quick" and form in ("lambda", "factory", "xdeco", "nestedlocal", "prefix", "lrucache", "declared", "nowraps"):  # quick: these forms without self-loops
+        if tier == "quick" and form in ("lambda", "factory", "xdeco", "nestedlocal", "prefix", "lrucache", "declared", "nowraps", "xpkg"):  # quick: these forms without self-loops
             loops = sum(1 << i for i, (u, v) in enumerate(edges) if u == v)
             graphs = [(kinds, mask) for kinds, mask in graphs if not mask & loops]
+        if form == "xpkg":
+            # (the root lives in one package, the others in another one: a plain function of another package is not a
+            # helper of the root, so the root names memento functions only)
+            graphs = [(kinds, mask) for kinds, mask in graphs
+                      if not any(mask >> i & 1 and u == 0 and kinds[v - 1] == "plain" for i, (u, v) in enumerate(edges))]
         for i in range(0, len(graphs), 64):
             yield {"kind": "small", "n": 3, "form": form, "graphs": graphs[i:i + 64]}
     edges = all_edges(4, "bare4")
@@ -64,6 +69,16 @@ def cases(tier, seed):
                               for _ in range(117)]
             for i in range(0, len(graphs), 64):
                 yield {"kind": "small", "n": 4, "form": form, "graphs": graphs[i:i + 64]}
+        # four nodes with the root in one package and the others in another: a memento function of the other package
+        # reaches a further one through a plain helper of its own package (the root names memento functions only,
+        # nobody names the root)
+        chain = bit[(0, 1)] | bit[(1, 2)] | bit[(2, 3)]
+        xg = [(("memento", "plain", "memento"), chain | sum(bit[e] for e in extra))
+              for k in range(4) for extra in itertools.combinations([(0, 3), (1, 3), (3, 1)], k)]
+        xg += [(kinds, mask) for kinds, mask in ((tuple(rng.choice(["memento", "plain"]) for _ in range(3)), rng.randrange(1 << len(edges)))
+                                                 for _ in range(400))
+               if not any(mask >> i & 1 and (v == 0 or (u == 0 and kinds[v - 1] == "plain")) for i, (u, v) in enumerate(edges))][:56]
+        yield {"kind": "small", "n": 4, "form": "xpkg4", "graphs": xg}
     for i in range(160 if tier == "quick" else 5000):
         yield {"kind": "random", "seed": seed, "idx": i}
     for i in range(12 if tier == "quick" else 60):
@@ -71,10 +86,10 @@ def cases(tier, seed):
 
 
 def all_edges(n, form):
-    if form in ("attr", "pkginit", "initroot"):  # root lives in module b, the others in module a (which cannot name the root)
+    if form in ("attr", "pkginit", "initroot", "xpkg"):  # root lives in module b, the others in module a (which cannot name the root)
         # (pkginit: root in sub-module b, the others in the package's __init__.py; initroot: the other way round)
         return [(u, v) for u in range(n) for v in range(n) if not (u > 0 and v == 0)]
-    if form in ("bare4", "declared4"):
+    if form in ("bare4", "declared4", "xpkg4"):
         return [(u, v) for u in range(n) for v in range(n) if u != v]
     return [(u, v) for u in range(n) for v in range(n)]
 
@@ -84,18 +99,23 @@ def render_small(pkg, n, kinds, edges, form):
     """Returns {module: text}. Node 0 is the root memento function."""
     kinds = ["memento"] + list(kinds)
     mod_of = (lambda u: "b" if (form == "attr" and u == 0) else "a")
+    if form == "xpkg":  # the root in module b of the package, the others in module a of another package
+        mod_of = lambda u: "b" if u == 0 else "x:a"
     if form == "pkginit":
         mod_of = lambda u: "b" if u == 0 else "__init__"
     elif form == "initroot":
         mod_of = lambda u: "__init__" if u == 0 else "a"
     std = ["import functools", "import twosigma.memento as m", "from vf.recorder import REC", "from vf.twin import box"]
     texts = {"a": std + [""], "b": std + ["import %s.a as a" % pkg, ""], "__init__": []}
+    if form == "xpkg":
+        texts["x:a"] = std + [""]
+        texts["b"] = std + ["import %s_x.a as a" % pkg, ""]
     if form == "pkginit":
         texts["__init__"] = std + [""]
         texts["b"] = std + ["from %s import %s" % (pkg, ", ".join("n%d" % u for u in range(1, n))), ""]
     elif form == "initroot":
         texts["__init__"] = std + [""]
-    aliases = {"a": [], "b": [], "__init__": []}
+    aliases = {"a": [], "b": [], "__init__": [], "x:a": []}
     if form == "xdeco":  # every function is wrapped by a decorator that lives in another module of the package
         texts["u"] = ["import functools", "", "def deco(fn):", "    @functools.wraps(fn)", "    def wrapper(*args, **kw):",
                       "        return fn(*args, **kw)", "    return wrapper"]
@@ -132,7 +152,7 @@ def render_small(pkg, n, kinds, edges, form):
         for (s, t) in edges:
             if s != u:
                 continue
-            if form == "attr" and mod_of(u) == "b" and mod_of(t) == "a":
+            if form in ("attr", "xpkg") and mod_of(u) == "b" and mod_of(t) in ("a", "x:a"):
                 refs.append("a.n%d(x)" % t)
             elif form == "alias":
                 aliases[mod_of(u)].append("al_%d_%d = n%d" % (u, t, t))
@@ -217,6 +237,13 @@ def small_child(arg):
     d = os.path.join(arg["root"], pkg)
     os.makedirs(d)
     for mod, text in arg["texts"].items():
+        if mod.startswith("x:"):  # a module of a second package
+            dx = os.path.join(arg["root"], pkg + "_x")
+            os.makedirs(dx, exist_ok=True)
+            open(os.path.join(dx, "__init__.py"), "a").close()
+            with open(os.path.join(dx, mod[2:] + ".py"), "w") as f:
+                f.write(text)
+            continue
         with open(os.path.join(d, mod + ".py"), "w") as f:
             f.write(text)
     sys.path.insert(0, arg["root"])
@@ -230,7 +257,8 @@ def small_child(arg):
                        for k, v in o.items()}
     for name in arg["names"]:
         attr = real.get(name, name)
-        fn = getattr(b, attr, None) or getattr(a, attr, None) or getattr(sys.modules[pkg], attr)
+        fn = (getattr(b, attr, None) or getattr(a, attr, None) or getattr(sys.modules.get(pkg + "_x.a"), attr, None)
+              or getattr(sys.modules[pkg], attr))
         out[name] = unmap(observe(fn))
         if name == "n0":  # the same questions asked of a modifier clone of the root
             out["n0 (modifier clone)"] = unmap(observe(fn.force_local()))
@@ -245,7 +273,7 @@ def run_small(case, out, fail):
             edges = [e for i, e in enumerate(edges_all) if mask >> i & 1]
             want = oracle_small(n, kinds, edges)
             pkg = "vg%d_%s_%d" % (n, form, gi)
-            texts = render_small(pkg, n, kinds, edges, {"bare4": "bare", "declared4": "declared"}.get(form, form))
+            texts = render_small(pkg, n, kinds, edges, {"bare4": "bare", "declared4": "declared", "xpkg4": "xpkg"}.get(form, form))
             try:
                 got = procs.in_child(small_child, {"pkg": pkg, "root": sc.path("g%d" % gi), "texts": texts,
                                                    "names": sorted(want), "form": form})
